@@ -345,7 +345,7 @@ CHECKS["C14"] = dict(
     explanation="exhaustive schedule enumeration supplies the schedules in which conflicting accesses actually execute; on each one the "
                 "happens-before race detector decides, so one explored schedule covers its whole happens-before equivalence class",
     assumptions=C14_ASSUME,
-    deadline=dict(quick=300, thorough=1500),
+    deadline=dict(quick=450, thorough=1500),
 )
 
 CHECKS["C09"] = dict(
